@@ -8,6 +8,7 @@ CONSTANTS
  MaxC = 2
  MaxB = 1
  WChunks = {7}
-INVARIANTS TypeOK Conserved WriteIsPrefix OneRecordWithheld CutDeliversAll NeverZeroNil BufBound ErrorIsTheCut
+ Tmo = FALSE
+INVARIANTS TypeOK Conserved WriteIsPrefix OneRecordWithheld CutDeliversAll NeverZeroNil BufBound ErrorIsTheCut TmoKeepsOrder
 PROPERTY EventuallyDelivered
 CHECK_DEADLOCK FALSE
